@@ -176,6 +176,7 @@ def run_check(spec, tier, seed, replay=None):
     distinct = set()
     samples = []
     traces_validated = 0
+    unmodelled = 0
     hist = {}
     diffs_all = []
     monitor_hits = []
@@ -230,6 +231,7 @@ def run_check(spec, tier, seed, replay=None):
                     if r["driver_rc"] != 0:
                         violations.append(dict(kind="build", nofail=True, text=f"model driver {st.driver} failed: {r['driver_err'][-300:]}"))
                     else:
+                        unmodelled += sum(1 for l in r["model_lines"] if l.startswith("# unmodelled"))
                         diffs, gs, ms = brv.diff_streams(r["go_lines"], r["model_lines"])
                         traces_validated += len(gs) - len(diffs)
                         for d in diffs:
@@ -297,7 +299,7 @@ def run_check(spec, tier, seed, replay=None):
         leanchecker=leanchecker,
         evaluations=max(evaluations, 0), distinct_nontrivial=len(distinct), rule=spec.rule,
         traces_validated_against_impl=traces_validated, samples=samples or ["<no scripts run>"],
-        op_histogram=hist, facts_changed=changed, modelled_functions_changed=fp_changed,
+        op_histogram=hist, scripts_partly_unmodelled=unmodelled, facts_changed=changed, modelled_functions_changed=fp_changed,
         known_findings_replayed=len(known_printed), broken_obligations=broken[:10], notes=notes,
         partial=spec.partial_note,
     )
